@@ -18,25 +18,37 @@ open Client.Loop Client.LoopSpec
 variable {σ : Type}
 
 /-- C07 (select gate) "the event loop takes no new user request while the window is full or an
-    id collision is unresolved": whichever branch `select!` picks, if this `poll()` hands a
-    request from the CHANNEL to the state machine then `pending` was empty, `inflight < max` and
-    no collision was pending. (Partial with respect to the clause's wording: user requests that
-    were carried over through `pending` are not covered — see `carried_over_requests_bypass_gate`.) -/
+    id collision is unresolved": whichever branch `select!` picks, if this `poll()` hands a NEW
+    request to the state machine — one read from the channel, or one that was carried over in
+    `pending` without a packet id (it had only been queued when the connection failed) — then
+    `inflight < max` and no collision was pending; a channel request moreover only with `pending`
+    empty. The only requests served regardless of flow control are retransmissions
+    (`isReplay`: publishes that own a packet id, pending releases). -/
 theorem no_request_taken_when_blocked (ops : StateOps σ) (s : LState σ) (b : Branch)
-    (r : LState σ × List Obs) (h : pollConnected ops s b = some r) (q : Req)
-    (hq : r.1.taken = s.taken ++ [(false, q)]) :
-    s.pending = [] ∧ ops.inflight s.st < ops.maxInflight s.st ∧ ops.collision s.st = false := by
+    (r : LState σ × List Obs) (h : pollConnected ops s b = some r) (src : Bool) (q : Req)
+    (hq : r.1.taken = s.taken ++ [(src, q)]) (hnew : src = false ∨ isReplay q = false) :
+    ops.inflight s.st < ops.maxInflight s.st ∧ ops.collision s.st = false ∧
+    (src = false → s.pending = []) := by
   have hk := poll_kind ops s b r h
   cases hk with
   | quiet ht _ =>
     rw [ht] at hq
     have := congrArg List.length hq; simp at this
-  | fromPending q' ps _ ht _ =>
+  | fromPending q' ps _ hr ht _ =>
     rw [ht] at hq
-    have := List.append_cancel_left hq; simp at this
+    have := List.append_cancel_left hq
+    simp at this
+    obtain ⟨h1, h2⟩ := this
+    subst h1; subst h2
+    rcases hnew with hn | hn
+    · cases hn
+    · rcases hr with hr | hr
+      · rw [hn] at hr; cases hr
+      · simp [gateOpen] at hr
+        exact ⟨hr.1, hr.2, fun h => by cases h⟩
   | fromChannel q' cs _ he hg _ _ =>
     simp [gateOpen] at hg
-    exact ⟨he, hg.1, hg.2⟩
+    exact ⟨hg.1, hg.2, fun _ => he⟩
 
 /-- C07 "and resumes as soon as an acknowledgement frees the window": on a live connection with
     nothing buffered, `pending` empty, a request waiting in the channel and the gate open, the
@@ -45,7 +57,7 @@ theorem requests_resume_when_freed (ops : StateOps σ) (s : LState σ) (n : Net)
     (hn : s.net = some n) (he : s.events = []) (hp : s.pending = []) (hc : s.channel = q :: cs)
     (hg : ops.inflight s.st < ops.maxInflight s.st ∧ ops.collision s.st = false) :
     ∃ r, pollConnected ops s .req = some r ∧ r.1.taken = s.taken ++ [(false, q)] := by
-  have hsel : selectEnabled ops s = true := by simp [selectEnabled, gateOpen, hg.1, hg.2]
+  have hsel : selectEnabled ops s = true := by simp [selectEnabled, hp, gateOpen, hg.1, hg.2]
   unfold pollConnected
   simp only [hn, he, hsel, hp, hc]
   simp only [Bool.not_true, Bool.false_eq_true, if_false]
@@ -55,15 +67,16 @@ theorem requests_resume_when_freed (ops : StateOps σ) (s : LState σ) (n : Net)
     · exact ⟨_, rfl, by simp⟩
     · exact ⟨_, rfl, by simp [failWith, loopClean]⟩
 
-/-- C11.2 / C02.3 (one step) "before it sends any request the user issued afterwards": while
-    `pending` is non-empty the request branch is enabled WHATEVER the flow-control state is
-    (a full window or a collision cannot block retransmission) and hands over the head of
-    `pending`, leaving the channel alone. -/
-theorem pending_served_first (ops : StateOps σ) (s : LState σ) (n : Net) (q : Req) (ps : List Req)
-    (hn : s.net = some n) (he : s.events = []) (hp : s.pending = q :: ps) :
+/-- C11.2 / C02.3 (one step) "before it sends any request the user issued afterwards": while the
+    head of `pending` is a retransmission the request branch is enabled WHATEVER the flow-control
+    state is (a full window or a collision cannot block retransmission — this is what makes the
+    gate deadlock-free, see `gate_cannot_deadlock`) and hands over that head, leaving the channel
+    alone. -/
+theorem retransmissions_never_blocked (ops : StateOps σ) (s : LState σ) (n : Net) (q : Req) (ps : List Req)
+    (hn : s.net = some n) (he : s.events = []) (hp : s.pending = q :: ps) (hr : isReplay q = true) :
     ∃ r, pollConnected ops s .req = some r ∧ r.1.taken = s.taken ++ [(true, q)] ∧
       (r.1.net ≠ none → r.1.pending = ps ∧ r.1.channel = s.channel) := by
-  have hsel : selectEnabled ops s = true := by simp [selectEnabled, hp]
+  have hsel : selectEnabled ops s = true := by simp [selectEnabled, hp, hr]
   unfold pollConnected
   simp only [hn, he, hsel, hp]
   simp only [Bool.not_true, Bool.false_eq_true, if_false]
@@ -72,6 +85,45 @@ theorem pending_served_first (ops : StateOps σ) (s : LState σ) (n : Net) (q : 
   · split
     · exact ⟨_, rfl, by simp, by simp⟩
     · exact ⟨_, rfl, by simp [failWith, loopClean], by simp [failWith, loopClean]⟩
+
+/-- … and a carried-over NEW request at the head of `pending` waits while the window is full or a
+    collision is unresolved: the request branch is disabled (neither it nor anything behind it,
+    nor the channel, is taken), so it can never be parked on top of another parked publish. -/
+theorem carried_over_new_request_waits (ops : StateOps σ) (s : LState σ) (q : Req) (ps : List Req)
+    (he : s.events = []) (hp : s.pending = q :: ps) (hr : isReplay q = false)
+    (hg : ¬ (ops.inflight s.st < ops.maxInflight s.st ∧ ops.collision s.st = false)) :
+    pollConnected ops s .req = none := by
+  have hsel : selectEnabled ops s = false := by
+    simp only [selectEnabled, hp, hr, gateOpen, Bool.false_or]
+    cases hc : ops.collision s.st
+    · have : ¬ ops.inflight s.st < ops.maxInflight s.st := fun h => hg ⟨h, hc⟩
+      simp [this]
+    · simp
+  unfold pollConnected
+  cases hn : s.net with
+  | none => rfl
+  | some n => simp [he, hsel]
+
+/-- the gate cannot deadlock the loop: whatever `pending` holds and however closed the gate is,
+    the network branch stays enabled whenever a frame (or EOF) is there — the acknowledgement that
+    frees the window or resolves the collision is read independently of the request branch — and
+    a retransmission at the head of `pending` (on which such an acknowledgement may depend after a
+    reconnect, since `MqttState.collision` survives `clean()`) is never held back. -/
+theorem gate_cannot_deadlock (ops : StateOps σ) (s : LState σ) (n : Net)
+    (hn : s.net = some n) (he : s.events = []) :
+    (netReady n = true → (pollConnected ops s .net).isSome = true) ∧
+    (∀ q ps, s.pending = q :: ps → isReplay q = true → (pollConnected ops s .req).isSome = true) := by
+  constructor
+  · intro hr
+    unfold pollConnected
+    simp only [hn, he, hr]
+    simp only [Bool.not_true, Bool.false_eq_true, if_false]
+    split
+    · simp
+    · split <;> simp
+  · intro q ps hp hr
+    obtain ⟨r, h, _⟩ := retransmissions_never_blocked ops s n q ps hn he hp hr
+    simp [h]
 
 /-- C11.2 "pending before channel", over whole runs: for every sequence of `select!` choices the
     requests handed to the state machine are a prefix of `pending` (in order), followed by
@@ -84,12 +136,13 @@ theorem pending_before_channel (ops : StateOps σ) (s : LState σ) (bs : List Br
   exact ⟨m, chans, h1, h2⟩
 
 /-- C02.2 / C11 `EventLoop::clean` after a failure at ANY point: the connection and the timer are
-    gone, and `pending` is (what was still waiting) ++ (what the state machine held:
-    unacknowledged publishes and pending releases, `MqttState::clean`) ++ (the requests that
-    were queued in the channel, minus PubAcks); the channel is empty. -/
+    gone, and `pending` is (what the state machine held: unacknowledged publishes and pending
+    releases, `MqttState::clean` — they were sent before anything still waiting) ++ (what was
+    still waiting in `pending`) ++ (the requests that were queued in the channel, minus
+    PubAcks); the channel is empty. -/
 theorem clean_moves_everything (ops : StateOps σ) (s : LState σ) :
     let f := loopClean ops s
-    f.pending = s.pending ++ (ops.clean s.st).2 ++ s.channel.filter (fun r => !isPubAck r) ∧
+    f.pending = (ops.clean s.st).2 ++ s.pending ++ s.channel.filter (fun r => !isPubAck r) ∧
     f.channel = [] ∧ f.net = none ∧ f.timer.connected = false ∧ f.timer.deadline = none ∧
     f.taken = s.taken := by
   simp [loopClean, Client.Timer.clean]
@@ -107,7 +160,7 @@ theorem error_implies_clean (ops : StateOps σ) (s : LState σ) (b : Branch) (r 
     those requests first, in that order, before any request from the channel. -/
 theorem resume_retransmits_all (ops : StateOps σ) (s : LState σ) (ska : Option Nat) (n : Net)
     (bs : List Branch) :
-    let P := s.pending ++ (ops.clean s.st).2 ++ s.channel.filter (fun r => !isPubAck r)
+    let P := (ops.clean s.st).2 ++ s.pending ++ s.channel.filter (fun r => !isPubAck r)
     let e := (established ops (loopClean ops s) true ska n).1
     e.pending = P ∧
     ∃ m chans, (polls ops e bs).taken =
@@ -124,6 +177,30 @@ theorem resume_retransmits_all (ops : StateOps σ) (s : LState σ) (ska : Option
   have := pending_before_channel ops e bs
   rw [hp, ht] at this
   exact this
+
+/-- C11 under REPEATED failures "in the order they were originally sent": let a connection start
+    with `pending = P` (e.g. right after a resume) and fail after any sequence of `select!`
+    choices. Then exactly a prefix `P.take m` had been handed to the state machine (followed by
+    channel requests only if all of `P` was), and `clean` builds
+    `state.clean() ++ P.drop m ++ channel`: what the state machine holds goes in front of the
+    not yet replayed rest, which keeps its order. In particular, if the state machine still
+    holds exactly what was re-sent (`state.clean() = P.take m`: nothing acknowledged meanwhile)
+    the next resume starts from `P` again followed by the newly queued requests — the original order. -/
+theorem repeated_failure_keeps_order (ops : StateOps σ) (s : LState σ) (bs : List Branch)
+    (hup : (polls ops s bs).net ≠ none) :
+    let s' := polls ops s bs
+    ∃ m chans, s'.taken = s.taken ++ (s.pending.take m).map (fun q => (true, q)) ++ chans.map (fun q => (false, q)) ∧
+      (chans ≠ [] → s.pending.length ≤ m) ∧
+      (loopClean ops s').pending =
+        (ops.clean s'.st).2 ++ s.pending.drop m ++ s'.channel.filter (fun r => !isPubAck r) ∧
+      ((ops.clean s'.st).2 = s.pending.take m →
+        (loopClean ops s').pending = s.pending ++ s'.channel.filter (fun r => !isPubAck r)) := by
+  intro s'
+  obtain ⟨m, chans, h1, h2, h3⟩ := (polls_progress ops s.taken s.pending bs s (progress_init s)).ex
+  refine ⟨m, chans, h1, h2, ?_, ?_⟩
+  · simp only [loopClean]; rw [h3 hup]
+  · intro hc
+    simp only [loopClean]; rw [h3 hup, hc, List.take_append_drop]
 
 /-- C11.4 / C02.4 "if the broker reports no session, none of the carried-over requests is sent":
     `poll()` clears `pending` (which by then also contains the requests drained from the channel
@@ -186,7 +263,7 @@ theorem batch_replies_flushed_before_first_event (ops : StateOps σ) (s : LState
   unfold popEvent
   cases (readb ops n s.st).events <;> simp
 
-/-! ### where the as-is loop violates a clause: decided witnesses on a two-slot state machine
+/-! ### regression examples for two repaired defects, on a two-slot state machine
 
 `slotOps`: window of 2 publishes, ONE collision slot (like `MqttState.collision`): a publish
 handed over while the window is full is parked in the slot, replacing whatever was parked. -/
@@ -214,34 +291,30 @@ def slotLoop (st : Slot) (pending channel : List Req) : LState Slot :=
   { ver := .v4, st := st, pending := pending, channel := channel, net := some {},
     timer := Client.Timer.fresh .v4 60000 0 }
 
-/-- C07's gate clause does NOT extend to requests served from `pending`
-    (`no_request_taken_when_blocked` is the provable part: requests from the channel): after a
-    failure with the window full (a, b unacknowledged) and two user requests c, d queued in the
-    channel, `clean` carries all four over; on resume a and b refill the window, then c and d —
-    new user requests — are handed to the state machine although the window is full and, for d,
-    a collision is pending: d replaces c in the single collision slot and c is gone (not in
-    flight, not parked, not in `pending`). Reproduced on the real loops (finding `loop-lost …
-    collision slot overwritten`). -/
-theorem carried_over_requests_bypass_gate :
+/-- repaired defect "requests queued at disconnect time skipped flow control on reconnect and
+    could be lost": a failure with the window full (a, b unacknowledged) and two user requests
+    c, d queued in the channel; `clean` carries all four over; on resume a and b — the
+    retransmissions — refill the window and then the loop WAITS: c and d stay in `pending`
+    (nothing is parked, nothing is overwritten) until an acknowledgement frees the window. -/
+theorem carried_over_requests_respect_gate :
     let failed := loopClean slotOps (slotLoop { infl := [.publish 1 1 "a", .publish 1 2 "b"] } []
                     [.publish 1 0 "c", .publish 1 0 "d"])
     let resumed := (established slotOps failed true none {}).1
     let fin := polls slotOps resumed [.req, .req, .req, .req, .req, .req, .req, .req]
     resumed.pending = [.publish 1 1 "a", .publish 1 2 "b", .publish 1 0 "c", .publish 1 0 "d"] ∧
-    fin.taken = [(true, .publish 1 1 "a"), (true, .publish 1 2 "b"), (true, .publish 1 0 "c"), (true, .publish 1 0 "d")] ∧
-    fin.st = { infl := [.publish 1 1 "a", .publish 1 2 "b"], slot := some (.publish 1 0 "d") } ∧
-    fin.pending = [] := by
+    fin.taken = [(true, .publish 1 1 "a"), (true, .publish 1 2 "b")] ∧
+    fin.st = { infl := [.publish 1 1 "a", .publish 1 2 "b"], slot := none } ∧
+    fin.pending = [.publish 1 0 "c", .publish 1 0 "d"] := by
   decide
 
-/-- C11's order clause fails under a repeated failure: `clean` appends what the state machine
-    holds (the requests already re-sent on the broken connection) BEHIND the rest of `pending`.
-    a, b, c carried over; a re-sent; second failure ⇒ `pending = [b, c, a]`, which the next
-    resume writes in that order (finding `loop-order … replay-interrupted=true`). -/
-theorem second_failure_reorders :
+/-- repaired defect "a second disconnect while resuming a session re-sent unacknowledged
+    publishes out of order": a, b, c carried over; a re-sent; second failure ⇒ `pending` is
+    a, b, c again. -/
+theorem second_failure_keeps_order :
     let resumed := (established slotOps
         (loopClean slotOps (slotLoop {} [.publish 1 1 "a", .publish 1 2 "b", .publish 1 3 "c"] [])) true none {}).1
     let again := loopClean slotOps (polls slotOps resumed [.req])
-    again.pending = [.publish 1 2 "b", .publish 1 3 "c", .publish 1 1 "a"] := by
+    again.pending = [.publish 1 1 "a", .publish 1 2 "b", .publish 1 3 "c"] := by
   decide
 
 /-! non-vacuity: a tiny state machine (a counter of inflight publishes, window 2) -/
@@ -269,14 +342,17 @@ example : (pollConnected toyOps (toy 2 [] [.publish 1 0 "x"]) .req).isNone = tru
 /-- window free: taken -/
 example : ((pollConnected toyOps (toy 1 [] [.publish 1 0 "x"]) .req).map (·.1.taken)) =
     some [(false, .publish 1 0 "x")] := by decide
-/-- window full but `pending` non-empty: served, from `pending` -/
+/-- window full but a retransmission heads `pending`: served, from `pending` -/
 example : ((pollConnected toyOps (toy 2 [.publish 1 1 "a"] [.publish 1 0 "x"]) .req).map (·.1.taken)) =
     some [(true, .publish 1 1 "a")] := by decide
-/-- failure with two unacknowledged publishes and one queued request, resume, three polls -/
+/-- window full and a carried-over NEW request heads `pending`: it waits -/
+example : (pollConnected toyOps (toy 2 [.publish 1 0 "n"] [.publish 1 0 "x"]) .req).isNone = true := by decide
+/-- failure with two unacknowledged publishes and one queued request, resume: the two
+    retransmissions fill the window, the queued request waits -/
 example :
     let e := (established toyOps (loopClean toyOps (toy 2 [] [.publish 1 0 "x"])) true none {}).1
     e.pending = [.publish 1 1 "m0", .publish 1 2 "m1", .publish 1 0 "x"] ∧
-    ((polls toyOps e [.req, .req, .req, .req, .req, .req]).taken.map (·.1)) = [true, true, true] := by decide
+    ((polls toyOps e [.req, .req, .req, .req, .req, .req]).taken.map (·.1)) = [true, true] := by decide
 /-- a batch of 11 QoS 1 publishes: 9 surfaced, 2 left -/
 example : ((readb toyOps { rx := (List.range 11).map (fun i => Pkt.publish 1 (i + 1) false "p") } 0).rest.length,
     (readb toyOps { rx := (List.range 11).map (fun i => Pkt.publish 1 (i + 1) false "p") } 0).replies.length) = (2, 9) := by
